@@ -22,11 +22,28 @@ type entryJ struct {
 	Manufacturer string `json:"Manufacturer"`
 }
 
+// concrete spellings of the abstract values: A differs from a only in letter case, "a." only by a trailing dot
+var concrete = map[string]string{"": "", "a": "host-a", "A": "HOST-A", "a.": "host-a.", "b": "host-b"}
+var abstract = map[string]string{"": "", "host-a": "a", "HOST-A": "A", "host-a.": "a.", "host-b": "b"}
+
+func conc(s string) string {
+	if c, ok := concrete[s]; ok {
+		return c
+	}
+	return s
+}
+func abst(s string) string {
+	if a, ok := abstract[s]; ok {
+		return a
+	}
+	return "?" + s
+}
+
 func (e entryJ) real(typ string) packet.NameEntry {
-	return packet.NameEntry{Type: typ, Name: e.Name, Model: e.Model, OS: e.OS, Manufacturer: e.Manufacturer}
+	return packet.NameEntry{Type: typ, Name: conc(e.Name), Model: conc(e.Model), OS: conc(e.OS), Manufacturer: conc(e.Manufacturer)}
 }
 func proj(n packet.NameEntry) entryJ {
-	return entryJ{Name: n.Name, Model: n.Model, OS: n.OS, Manufacturer: n.Manufacturer}
+	return entryJ{Name: abst(n.Name), Model: abst(n.Model), OS: abst(n.OS), Manufacturer: abst(n.Manufacturer)}
 }
 func (e entryJ) attrs() [4]string { return [4]string{e.Name, e.Model, e.OS, e.Manufacturer} }
 
